@@ -4,7 +4,8 @@ with the logical length before any unchecked access; chunked scans of the values
 Width/strategy/delta arithmetic is NOT decided."""
 from vlib import fixtures
 from props import _refusal_common as rc
-from rules import remainder, narrow
+from rules import remainder, narrow, order
+from vlib.mir import Fn
 
 FILES = ['src/containers/specialized/int_vec.rs', 'src/containers/specialized/int_vec/int_vec_simd.rs',
          'src/containers/specialized/uint_vector.rs', 'src/containers/uint_vec_min0.rs', 'src/containers/zip_int_vec.rs',
@@ -24,6 +25,17 @@ def run(ctx):
     narrow.packed_value_checked(ctx, fx, "blob_store::sorted_uint_vec::SortedUintVecBuilder",
                                 r"::store_(sample|delta)_static$")
     ctx.floor('R-WIDTHCHECK.sites', 2)
+    # predicates that pick a strategy which assumes a property of *every* element (sorted -> delta encoder subtracts
+    # neighbours; uniform step -> only base and step are stored) look at every element: no strided scan
+    npred = 0
+    for fid in fx.fn_ids('src/containers/specialized/int_vec.rs'):
+        if '::tests::' in fid or '{closure' in fid:
+            continue
+        if fid.rsplit('::', 1)[-1] in ('fast_sorted_check', 'detect_uniform_delta'):
+            npred += order.forbidden_in(ctx, Fn(fx.raw(fid)), r'::step_by$|StepBy<', 'R-SAMPLE',
+                                        'whole-sequence predicate inspects every element (no step_by)', depth=1)
+    ctx.instance('R-SAMPLE.predicates', npred)
+    ctx.floor('R-SAMPLE.predicates', 2)
     # get2(i): the neighbour is located from i + 1, not from element i's block
     narrow.pair_accessor(ctx, fx, "blob_store::sorted_uint_vec::SortedUintVec::get2")
     rc.accessors(ctx, fx, FILES, r'^(get|get2|get_block|set|get_unchecked_checked|at)$', "R-GUARD.refusal")
